@@ -86,7 +86,7 @@ def design_model(prop, q):
     """OptProto.tla over the design environments of MC_OptProto.tla (abstract solver, the action raising at any evaluation), explored exhaustively for the
     invariants named after `prop`; the thorough tier also runs the reachability probes (each must be violated: the situation is reached)"""
     invs = [i for i in INVS if i.startswith(prop)]
-    cfg = _proto_cfg(invs, 2 if q else 3, 1 if q else 2)
+    cfg = _proto_cfg(invs, 2, 1 if q else 2)      # (3 calls with 2 faults did not finish in 100 minutes: the thorough tier deepens the faults, not the calls)
     try:
         r = tlc.run("MC_OptProto.tla", cfg, workers=14, timeout=6000, heap="10g")
     finally:
